@@ -179,6 +179,13 @@ class Report:
         self.rules[rid] = text
 
     def add(self, rule, key, ok, why='', fn=None, at=None, nontrivial=True, detail=None):
+        # one obligation per key: MIR duplicates switches/blocks (drop elaboration); a failing
+        # instance wins over a holding one with the same key
+        for o in self.obs:
+            if o.key == key:
+                if o.ok and not ok:
+                    o.ok, o.why, o.at = ok, why, at
+                return
         self.obs.append(Ob(rule, key, ok, why, fn, at, nontrivial, detail))
 
     def note(self, text):
